@@ -76,6 +76,8 @@ STATEMENT_STATUS: Dict[str, str] = {
                     "branch reachable (feeds C13)",
     "decode_output_bounded": "proved: at most 48 lines of output per input byte",
     "ccittBranch_total": "proved: totality through the dictionary route",
+    "ccittBranch_nondict": "proved: a non-dictionary parameter object always gives PDFValueError (integrated "
+                           "behaviour after 82c142f / f22e689)",
     "uncompressed_mode_cex": "proved counter-example: the uncompressed-mode extension (outside the property: not "
                              "pass/vertical/horizontal) never completes a row after `width` pixels",
 }
@@ -871,7 +873,7 @@ def run_stream_params(ctx: C.Ctx, b: Batch) -> None:
             attrs[pkey] = p
         elif shape < 0.55:
             attrs[fkey] = [ccf()]
-            attrs[pkey] = rng.choice([[p], p, [None], [p, p], []])
+            attrs[pkey] = rng.choice([[p], p, [None], [p, p], [], [7], [LIT("x")], [[p]], 3, [True]])
         elif shape < 0.7:
             attrs[fkey] = [LIT("ASCIIHexDecode"), ccf()]
             attrs[pkey] = rng.choice([[None, p], [{}, p], p, [p], [None, None]])
